@@ -309,9 +309,14 @@ class Fates:
                     self.counts["blackout"] += 1
                     return []
             r = rng.random()
-            if r < p.get("loss", 0.0):
+            loss = p.get("loss", 0.0)
+            for lw in p.get("loss_windows", []):
+                # [t0, t1, direction, probability]: loss rate of one direction during a window
+                if lw[0] <= t < lw[1] and lw[2] == direction:
+                    loss = lw[3]
+            if r < loss:
                 kind = "drop"
-            elif r < p.get("loss", 0.0) + p.get("dup", 0.0):
+            elif r < loss + p.get("dup", 0.0):
                 kind = "dup"
             else:
                 kind = "ok"
